@@ -436,6 +436,61 @@ Section Inst.
 End Inst.
 
 (* ------------------------------------------------------------------------- *)
+(* the property's reading: reasons evaluated with the geodesic called (lon, lat) *)
+(* ------------------------------------------------------------------------- *)
+
+(* The documented reasons of the PROPERTY: [reason_holds] at the specification switches, i.e. the distance
+   reasons are computed from geod (lon, lat, lon, lat).  ([reason_holds] at other switches describes what the
+   code as found computes — with exchanged coordinates — and certifies nothing about the property.) *)
+Definition documented_reason (geod : Z -> Z -> Z -> Z -> option Z) (excl : list string) (r : csvrow) (ko kd : bool)
+           (o d : Z * Z) (miles : Z) (k : skip) : Prop :=
+  reason_holds geod spec_flags excl r ko kd o d miles k.
+
+Lemma skip_iff_documented_reason_spec : forall offO offD geod excl year r ko kd o d miles s,
+  ((exists k, import_row offO offD geod spec_flags excl year r ko kd o d miles s = Skipped k)
+   <-> (exists k, documented_reason geod excl r ko kd o d miles k))
+  /\ (forall k, import_row offO offD geod spec_flags excl year r ko kd o d miles s = Skipped k ->
+                documented_reason geod excl r ko kd o d miles k).
+Proof. intros. apply skip_iff_documented_reason. Qed.
+
+(* the recorded effective dates are the row's own dates (or 1 Jan / 31 Dec of the data year), 1970-2099 *)
+Definition date_in_calendar (c : Z * Z * Z) : Prop :=
+  let '(y, m, d) := c in sweep_first_year <= y <= sweep_last_year /\ valid_date y m d = true.
+
+Lemma recorded_effective_dates : forall year s,
+  sweep_first_year <= year <= sweep_last_year ->
+  (forall c, s_from s = Some c -> date_in_calendar c) -> (forall c, s_to s = Some c -> date_in_calendar c) ->
+  civil_from_days (effective_from year s) = match s_from s with Some c => c | None => (year, 1, 1) end
+  /\ civil_from_days (effective_to year s) = match s_to s with Some c => c | None => (year, 12, 31) end.
+Proof.
+  intros year s Hy Hf Ht. unfold effective_from, effective_to. split.
+  - destruct (s_from s) as [[[y m] d]|].
+    + destruct (Hf _ eq_refl) as [H1 H2]. simpl. apply civil_roundtrip_date; assumption.
+    + unfold jan1. apply civil_roundtrip_date; [exact Hy | reflexivity].
+  - destruct (s_to s) as [[[y m] d]|].
+    + destruct (Ht _ eq_refl) as [H1 H2]. simpl. apply civil_roundtrip_date; assumption.
+    + unfold dec31. apply civil_roundtrip_date; [exact Hy | reflexivity].
+Qed.
+
+Lemma imported_flight_dates : forall offO offD geod fl excl year r ko kd o d miles s mask dep arr ad efrom eto cnt insts w,
+  import_row offO offD geod fl excl year r ko kd o d miles s = Imported (mask, dep, arr, ad, efrom, eto, cnt) insts w ->
+  sweep_first_year <= year <= sweep_last_year ->
+  (forall c, s_from s = Some c -> date_in_calendar c) -> (forall c, s_to s = Some c -> date_in_calendar c) ->
+  efrom = match s_from s with Some c => c | None => (year, 1, 1) end
+  /\ eto = match s_to s with Some c => c | None => (year, 12, 31) end.
+Proof.
+  intros until w. intros H Hy Hf Ht. apply imported_count in H. destruct H as [_ [_ H]].
+  inversion H; subst. apply recorded_effective_dates; assumption.
+Qed.
+
+Lemma weekday_follows_calendar :
+  civil_from_days 0 = (1970, 1, 1) /\ weekday 0 = 4
+  /\ (forall z, 0 <= z < sweep_last_day ->
+        civil_from_days (z + 1) = next_date (civil_from_days z)
+        /\ weekday (z + 1) = (if weekday z =? 7 then 1 else weekday z + 1)).
+Proof. split; [reflexivity | split; [reflexivity | exact weekday_of_next_date]]. Qed.
+
+(* ------------------------------------------------------------------------- *)
 (* open-ended ranges                                                          *)
 (* ------------------------------------------------------------------------- *)
 
